@@ -10,7 +10,7 @@ CONSTANTS
   KeepExtra = FALSE
   Ops = {0, 1}
   MaxFiles = 7
-  MaxReopens = 1
+  MaxReopens = 2
   Bug_RangeMin = FALSE
   Bug_NoBoundary = FALSE
   Bug_DropTombNoBase = FALSE
@@ -23,6 +23,7 @@ CONSTANTS
   Bug_SeqFromManifestOnly = FALSE
   Bug_ReplaySkipsOlderLogs = FALSE
   Bug_CounterNotRestored = FALSE
-INVARIANTS RReadCorrect RWellFormed RSeqSane ManifestMatches
+INVARIANTS RReadCorrect RWellFormed RSeqSane ManifestMatches NumbersFresh
 CONSTRAINT RBound
+VIEW RView
 CHECK_DEADLOCK FALSE
